@@ -30,10 +30,6 @@ def c03_case(draw, nmin=4, nmax=60, pmax=6):
     s["panel"] = draw(st.sampled_from([1, 2, 2, 3, 4])); s["relax"] = draw(st.sampled_from([1, 1, 2, 3, 4]))
     if s["relax"] > s["maxsuper"]:
         s["maxsuper"] = s["relax"]
-    # finer schedule: also yield inside one interchange of pxgstrf_pruneL (reaches the listed finding D17); kept to a share of the
-    # cases so that the search continues behind it
-    if draw(st.integers(0, 3)) == 0:
-        s["yield_prune_inner"] = 1
     return case
 
 
